@@ -40,12 +40,24 @@ def translate_outcome(text):
         out = os.path.join(d, 'gen.py')
         ps.write_translation(out)
     except E2PyclException as e:
+        # asking the same Parser again must give the library exception again (never the text of an earlier run, None, or a foreign error)
+        for again in (lambda: ps.get_translation(), lambda: ps.write_translation(os.path.join(d, 'gen2.py'))):
+            try:
+                r2 = again()
+                return ('badclass', f'second request after {type(e).__name__} returned {type(r2).__name__} instead of raising')
+            except E2PyclException as e2_:
+                if type(e2_) is not type(e):
+                    return ('badclass', f'second request raised {type(e2_).__name__}, first {type(e).__name__}')
+            except Exception as e2_:
+                return ('foreign', type(e2_).__name__ + ' (second request)', str(e2_)[:120])
         return ('library', type(e).__name__)
     except RecursionError:
         return ('foreign', 'RecursionError', '')
     except Exception as e:
         return ('foreign', type(e).__name__, str(e)[:120])
     try:
+        if ps.get_translation() != src:
+            return ('badclass', 'a second request on the same Parser returns a different text')
         if open(out, encoding='utf-8').read() != src:
             return ('badclass', 'written file differs from the returned text')
         ns = {}
@@ -64,6 +76,16 @@ def translate_outcome(text):
         b = Executor().set_executed_class(class_file=out)
         if a.get_executed_class().get_titles() != b.get_executed_class().get_titles():
             return ('badclass', 'file-loaded and class-object executors differ')
+        # an override beyond the used area through one Executor must not leak into later users of the same class object / file
+        from excel2pycl import Cell
+        for route in ('class_object', 'class_file'):
+            mk = (lambda: Executor().set_executed_class(class_object=K)) if route == 'class_object' else (lambda: Executor().set_executed_class(class_file=out))
+            first = mk()
+            first.set_cells([Cell(0, 7, 9, 5)])
+            second = mk()
+            sz2 = second.get_executed_class().get_sheets_size() if hasattr(second.get_executed_class(), 'get_sheets_size') else None
+            if sz2 != [{'last_column': 4, 'last_row': 3}, {'last_column': 1, 'last_row': 1}] or K().get_sheets_size() != sz2:
+                return ('badclass', f'sizes after an earlier Executor ({route}) grew its sheet: {sz2} / {K().get_sheets_size()}')
     except SyntaxError as e:
         return ('foreign', 'SyntaxError', str(e)[:120])
     except Exception as e:
@@ -137,7 +159,9 @@ def run(report, tier, seed):
     report.sample(dict(accepted_sequences=len(outcomes), ok=sum(1 for o in outcomes.values() if o[0] == 'ok'), library=sum(1 for o in outcomes.values() if o[0] == 'library'),
                        secs=round(time.time() - t0, 1)))
     # concrete probes (termination, odd inputs): NOT solver verdicts
-    probes = ["='" + 'a' * 31 + "'!A1+1", "='" + 'b' * 40, '=SUM(Z!A1)', '="it' + "'" + 's"', '=COUNT((1))', '=A1:B', '=COUNTIFS(A1:B1,"a*",A1:B1,"b")', '=1/0', '=A1+', '=A1%B1']
+    probes = ["='" + 'a' * 31 + "'!A1+1", "='" + 'b' * 40, '=SUM(Z!A1)', '="it' + "'" + 's"', '=COUNT((1))', '=A1:B', '=COUNTIFS(A1:B1,"a*",A1:B1,"b")', '=1/0', '=A1+', '=A1%B1',
+              '=Total_Revenue_For_The_Fiscal_Year_2023_Q4_Grand_Total*2', '=ABCDEFGHIJKLMNOPQRSTUVWXYZABCDEFGHIJKLMN(1)', '=1' + '0' * 40 + '+A1', '=A1+' + 'Z' * 48, '=SUM(' + 'x_' * 24 + ')',
+              '=' + 'A1.' * 16 + 'A1', "='" + "a'" * 20 + "'!A1"]
     for ptxt in probes:
         out = timed_probe(ptxt)
         ok = out.startswith("('ok'") or out.startswith("('library'")
